@@ -15,6 +15,7 @@ package c06
 
 import (
 	"encoding/json"
+	"errors"
 	"fmt"
 	"math/rand"
 	"os"
@@ -103,16 +104,27 @@ func runSeq(dir string, in *SeqIn) (obs SeqObs) {
 	}
 	defer r.Close()
 	byName := map[string]*rt.Plugin{}
+	degraded := false
 	for _, op := range in.Ops {
 		o := OpObs{Op: op.Op, Log: []Inv{}}
 		switch op.Op {
 		case "reg":
-			p, err := r.Connect(*op.Plugin, rt.ConnectOpts{})
+			p, err := r.Connect(*op.Plugin, rt.ConnectOpts{NoWait: degraded, Wait: 3 * time.Second})
 			o.OK = err == nil
-			if err != nil {
-				obs.Fail = "reg: " + err.Error()
-			} else {
+			switch {
+			case errors.Is(err, rt.ErrNotActivated):
+				// registered and synchronised, yet no probe of any subscribed kind reaches it: go on
+				// without waiting; the requests that follow show what is (not) delivered
+				degraded = true
 				byName[p.Name] = p
+			case err != nil:
+				obs.Fail = "reg: " + err.Error()
+				return
+			default:
+				byName[p.Name] = p
+			}
+			if degraded {
+				time.Sleep(3 * time.Millisecond)
 			}
 			r.Rec.Take()
 		case "stop":
@@ -446,13 +458,13 @@ func Run(o *hx.Opts, w *lineio.Writer) error {
 			seq = append(seq, &rt.Job{ID: fmt.Sprintf("masks-%d", i), In: in})
 		}
 	}
-	for i := 0; i < o.N(200, 2000); i++ {
+	for i := 0; i < o.N(600, 4000); i++ {
 		seq = append(seq, &rt.Job{ID: fmt.Sprintf("random-%d", i), In: genRandom(o, i)})
 	}
-	for i := 0; i < o.N(60, 2000); i++ {
+	for i := 0; i < o.N(150, 2000); i++ {
 		conc = append(conc, &rt.Job{ID: fmt.Sprintf("conc-%d", i), In: genConc(o, i)})
 	}
-	err := rt.Dispatch(o.Scratch, "C06", "", seq, 10, 6, 90*time.Second)
+	err := rt.Dispatch(o.Scratch, "C06", "", seq, 10, 6, 40*time.Second)
 	emit(w, seq)
 	// concurrent cases: each worker sets GOMAXPROCS for itself; fewer at a time so that the
 	// callers really run in parallel
